@@ -143,6 +143,31 @@ def handle (line : String) : Out :=
           | 's' => some s!"s{if p.inCheck p.turn then 1 else 0}"
           | _ => Option.none)
     ⟨model, spec⟩
+  | "checkafter" =>
+    -- checkafter <fen...>: per legal move (generation order) the check status of the successor: side to move, white, black
+    let fen := rest 1
+    let b3 (x : Bool) : String := if x then "1" else "0"
+    let model := match parseFenM fen with
+      | Option.none => "badfen"
+      | some s =>
+        let ms := legalMoves s
+        s!"{ms.length} " ++ joinSp (ms.map fun r =>
+          b3 r.2.isCheck ++ b3 ((CachedBoard.new r.2.pieces).isCheck .white).2 ++ b3 ((CachedBoard.new r.2.pieces).isCheck .black).2)
+    let spec := match specOf fen with
+      | none => "-"
+      | some p =>
+        -- in the MODEL's move order (the spec has no order of its own): the rule-level successor of each listed move
+        match parseFenM fen with
+        | Option.none => "-"
+        | some s =>
+          let ms := legalMoves s
+          s!"{ms.length} " ++ joinSp (ms.map fun r =>
+            match toSpecMove r.1 with
+            | Option.none => "???"
+            | some sm =>
+              let q := Spec.applyMove p sm
+              b3 (q.inCheck q.turn) ++ b3 (q.inCheck .white) ++ b3 (q.inCheck .black))
+    ⟨model, spec⟩
   | "slider" =>
     let sq := parts[2]!.toNat!
     let occ := parts[3]!.toNat!.toUInt64
@@ -170,7 +195,8 @@ def handle (line : String) : Out :=
         | .err => "err"
         | .panic => "panic"
       let spec := match Spec.readFen s with
-        | some p => if Spec.writeFen p == s then "ok " ++ s else "-"
+        -- canonical as in C11 (`CanonicalFen`): reproduced by the strict writer AND counters that fit 64 bits
+        | some p => if Spec.writeFen p == s && p.halfmove < 2^64 && p.fullmove < 2^64 then "ok " ++ s else "-"
         | none => "-"
       ⟨model, spec⟩
   | "san" =>
